@@ -5,6 +5,7 @@ CONSTANTS
   MaxRef = 3
   MaxGen = 3
   CacheBadKey = FALSE
+  ExtBad = {"empty", "short", "long", "hex", "hexnl", "keylf", "keycrlf"}
 INIT Init
 NEXT Next
 VIEW View
